@@ -17,12 +17,22 @@ __all__ = [
 ]
 
 import colorsys
+import decimal
 import re
 import urllib.parse
 
 import cssutils
 from cssutils.helper import normalize, pushtoken
 from cssutils.prodparser import Choice, PreDef, Prod, ProdParser, Sequence
+
+
+
+def _numbertext(number):
+    "a Python number as CSS number, which has no exponent (``1e-05``)"
+    text = str(number)
+    if 'e' in text.lower() and text.lower().strip('-+.e0123456789') == '':
+        text = format(decimal.Decimal(text), 'f')
+    return text
 
 
 class PropertyValue(cssutils.util._NewBase):
@@ -54,7 +64,7 @@ class PropertyValue(cssutils.util._NewBase):
 
         if cssText is not None:  # may be 0
             if isinstance(cssText, (int, float)):
-                cssText = str(cssText)  # if it is a number
+                cssText = _numbertext(cssText)  # if it is a number
             self.cssText = cssText
 
         self._readonly = readonly
@@ -91,7 +101,7 @@ class PropertyValue(cssutils.util._NewBase):
 
     def _setCssText(self, cssText):
         if isinstance(cssText, (int, float)):
-            cssText = str(cssText)  # if it is a number
+            cssText = _numbertext(cssText)  # if it is a number
         """
         Format::
 
